@@ -9,6 +9,7 @@ import (
 	"verifmc/vrt/vchan"
 )
 
+//go:norace
 func Now() time.Time {
 	x := vrt.Cur()
 	if x == nil {
@@ -20,7 +21,10 @@ func Now() time.Time {
 	return x.WallNow()
 }
 
+//go:norace
 func Since(t time.Time) time.Duration { return Now().Sub(t) }
+
+//go:norace
 func Until(t time.Time) time.Duration { return t.Sub(Now()) }
 
 type Timer struct {
@@ -29,6 +33,7 @@ type Timer struct {
 	native *time.Timer // free-running fallback (no controlled execution active)
 }
 
+//go:norace
 func AfterFunc(d time.Duration, f func()) *Timer {
 	x := vrt.Cur()
 	if x == nil {
@@ -37,6 +42,7 @@ func AfterFunc(d time.Duration, f func()) *Timer {
 	return &Timer{h: x.AfterFunc(d, "AfterFunc", f)}
 }
 
+//go:norace
 func NewTimer(d time.Duration) *Timer {
 	x := vrt.Cur()
 	if x == nil {
@@ -47,6 +53,7 @@ func NewTimer(d time.Duration) *Timer {
 	return t
 }
 
+//go:norace
 func (t *Timer) Stop() bool {
 	if t.native != nil {
 		return t.native.Stop()
@@ -58,6 +65,7 @@ func (t *Timer) Stop() bool {
 	return t.h.Stop()
 }
 
+//go:norace
 func (t *Timer) Reset(d time.Duration) bool {
 	if t.native != nil {
 		return t.native.Reset(d)
@@ -69,8 +77,10 @@ func (t *Timer) Reset(d time.Duration) bool {
 	return t.h.Reset(x, d)
 }
 
+//go:norace
 func After(d time.Duration) *vchan.Chan[time.Time] { return NewTimer(d).C }
 
+//go:norace
 func Sleep(d time.Duration) {
 	x := vrt.Cur()
 	if x == nil || x.Aborting() {
@@ -86,6 +96,7 @@ type Ticker struct {
 	stopped bool
 }
 
+//go:norace
 func NewTicker(d time.Duration) *Ticker {
 	x := vrt.Cur()
 	if x == nil {
@@ -99,6 +110,7 @@ func NewTicker(d time.Duration) *Ticker {
 	return t
 }
 
+//go:norace
 func (t *Ticker) arm(x *vrt.Exec) {
 	t.h = x.AfterFunc(t.d, "Ticker", func() {
 		if t.stopped {
@@ -111,6 +123,7 @@ func (t *Ticker) arm(x *vrt.Exec) {
 	})
 }
 
+//go:norace
 func (t *Ticker) Stop() {
 	x := vrt.Cur()
 	if x == nil || x.Aborting() {
@@ -120,6 +133,7 @@ func (t *Ticker) Stop() {
 	t.h.Stop()
 }
 
+//go:norace
 func (t *Ticker) Reset(d time.Duration) {
 	x := vrt.Cur()
 	if x == nil || x.Aborting() {
